@@ -225,7 +225,10 @@ class Gen:
             vars_any, vars_cls = [], []
             # top-level lets
             for i in range(rng.randint(0, 2)):
-                vn = 'v%d' % i
+                # sometimes a variable is named like a built-in class: `$x` and `$$x` are separate namespaces
+                vn = rng.choice(['lowercase', 'ascii_digit', 'alphabetic', 'whitespace']) if rng.random() < 0.2 else 'v%d' % i
+                if vn in vars_any:
+                    vn = 'v%d' % i
                 if rng.random() < 0.5:
                     items.append(('let', vn, self.cls(1, vars_cls)))
                     vars_cls.append(vn)
@@ -455,9 +458,11 @@ def shape_defs(rng, builtins):
         for j in range(2 + i % 2):
             nm = 'Init' if j == 0 else 'R%d' % j
             bound = set_(l6[j], l6[(j + 2) % 6])
-            rs = [('let', 'y', bound), rule('infallible', ('diff', set_((ord('a'), ord('h'))), ('var', 'y'))),
-                  rule('simple', ('plus', ('var', 'y')), ('diff', ANY, ('var', 'y'))),
-                  rule('simple', cat(('diff', ('var', 'y'), chr_(l6[j])), chr_('!'))), rule('simple', ANY)]
+            vname = 'lowercase' if i == 1 else 'y'
+            rs = [('let', vname, bound), rule('infallible', ('diff', set_((ord('a'), ord('h'))), ('var', vname))),
+                  rule('simple', cat(chr_('#'), ('diff', ('bi', 'lowercase'), ('var', vname)))),
+                  rule('simple', ('plus', ('var', vname)), ('diff', ANY, ('var', vname))),
+                  rule('simple', cat(('diff', ('var', vname), chr_(l6[j])), chr_('!'))), rule('simple', ANY)]
             sets.append(('ruleset', nm, rs))
         d = {'name': 'ShScopeCls%d' % i, 'items': [('errortype',)] + sets}
         if well_formed(d, builtins):
@@ -471,6 +476,10 @@ def shape_defs(rng, builtins):
         d = {'name': 'ShCtxHole%d' % i, 'items': [('errortype',)] + items}
         if well_formed(d, builtins):
             out.append(d)
+    # two different large classes (two search tables) in one lexer, interleavable through clones (C15, C13)
+    for i, (n1, n2) in enumerate([('XID_Start', 'XID_Continue'), ('alphabetic', 'numeric')]):
+        out.append({'name': 'ShTwoTab%d' % i, 'items': [('errortype',), rule('simple', cat(('bi', n1), ('star', ('bi', n2)))), rule('simple', ('plus', ('bi', 'whitespace'))),
+                                                        rule('simple', ('plus', ('diff', ('bi', n2), ('bi', n1)))), rule('simple', chr_('='))]})
     # classes touching 0, the surrogate gap, char::MAX (C11, C12)
     cls_exprs = [('diff', ANY, set_((0xD000, 0xE000))), ('diff', ANY, chr_(0)), ('diff', ANY, chr_(0x10FFFF)),
                  ('diff', set_((0, 0x10FFFF)), set_((1, 0xD7FF), (0xE000, 0x10FFFE))),
@@ -579,6 +588,14 @@ def gen_scripts(rng, d, n=3):
         return [[]]
     nsets = max(1, len(ruleset_names(d)))
     out = [[], [2], [66, 2, 69]]
+    # directed rule-set walks: enter rule set i with a returned token, then keep asking for rule set j (i, j other than Init when possible):
+    # two lexer instances parked in i and both switching to j is exactly what hidden per-type (not per-instance) state gets wrong
+    if nsets >= 2:
+        pairs = [(i, j) for i in range(1, nsets) for j in range(1, nsets) if i != j] or [(1, 0), (1, 1)]
+        rng.shuffle(pairs)
+        for (i, j) in pairs[:2]:
+            out.append([8 * i + 5] + [8 * j + 5] * 4)
+            out.append([8 * i + 3, 8 * j + 5, 8 * j + 3])
     for _ in range(n):
         ln = rng.randint(1, 6)
         out.append([rng.randrange(8) + 8 * rng.randrange(nsets) + (64 if rng.random() < 0.25 else 0) for _ in range(ln)])
